@@ -61,7 +61,10 @@ def cstr(s):
 
 
 def cZ(n):
-    return f'({int(n)})%Z'
+    n = int(n)
+    if abs(n) >= 10 ** 300:
+        return f'(-{hex(-n)})%Z' if n < 0 else f'({hex(n)})%Z'      # hexadecimal numeral: CPython refuses to print very long ints in decimal
+    return f'({n})%Z'
 
 
 def cN(n):
